@@ -102,8 +102,8 @@ class UniformGrid(TreeClass):
 
     def bounds_for_center(self, axis: int, center: float, size: int) -> tuple[int, int]:
         """Convert a physical center and grid size to edge bounds."""
-        grid_center = self.coord_to_index(axis, center, snap="nearest")
-        lower = round(grid_center - size / 2)
+        # round once: snapping the center first and the lower edge afterwards can land a full cell away
+        lower = round((center - self.center[axis]) / self.spacing - size / 2)
         return lower, lower + size
 
     def anchor_coordinate(self, axis: int, bounds: tuple[int, int], position: float) -> float:
@@ -115,9 +115,8 @@ class UniformGrid(TreeClass):
 
     def bounds_for_anchor(self, axis: int, size: int, anchor: float, position: float) -> tuple[int, int]:
         """Choose a uniform-grid interval from an object anchor."""
-        anchor_cell = self.coord_to_index(axis, anchor, snap="nearest")
-        offset = round(0.5 * (position + 1.0) * size)
-        lower = anchor_cell - offset
+        # round once: snapping the anchor and the offset separately can land a full cell away
+        lower = round((anchor - self.center[axis]) / self.spacing - 0.5 * (position + 1.0) * size)
         return lower, lower + size
 
     def cell_volume(self, slice_tuple: tuple[tuple[int, int], tuple[int, int], tuple[int, int]]) -> jax.Array:
